@@ -385,4 +385,80 @@ def modesIn (modes : List Nat) : Nat → List Nat → Nat
 def emitted (heralds : List (Nat × Nat)) (keepHeralds : Bool) (st : List Nat) : List Nat :=
   if !heralds.isEmpty && !keepHeralds then removeModes (heralds.map (·.1)) st else st
 
+/-! ## 8. accounting of a batch of sampled states -/
+
+/-- the counters after the states `sts` went through the post-processing of `_noisy_sampling`
+(`psf` = verdict of the native `PostSelect` on a state) -/
+def tally (fixed : Bool) (filter : Nat) (heralds : List (Nat × Nat)) (psf : List Nat → Bool)
+    (s : St) (sts : List (List Nat)) : St :=
+  sts.foldl (fun s st => classify s (shotOutcome fixed filter heralds (psf st) st)) s
+
+/-! ## 9. seeding -/
+
+/-- the three process-wide generators of the Python layer (`random`, `numpy.random`, exqalibur) -/
+inductive Gen where
+  | py | np | native
+  deriving DecidableEq, Repr
+
+/-- the generator algorithms, left abstract: state after seeding, next state, value drawn -/
+structure RngSpec where
+  init : Gen → Nat → Nat
+  next : Gen → Nat → Nat
+  out : Gen → Nat → Nat
+
+structure Gens where
+  py : Nat
+  np : Nat
+  native : Nat
+  deriving DecidableEq, Repr
+
+def Gens.get (w : Gens) : Gen → Nat
+  | .py => w.py
+  | .np => w.np
+  | .native => w.native
+
+def Gens.set (w : Gens) : Gen → Nat → Gens
+  | .py, v => { w with py := v }
+  | .np, v => { w with np := v }
+  | .native, v => { w with native := v }
+
+inductive ROp where
+  | seed (s : Nat)     -- `perceval.random_seed(s)`
+  | draw (g : Gen)     -- one random choice of some path, drawn from one of the three generators
+  deriving Repr
+
+/-- `random_seed` re-seeds the three generators together; a draw advances the generator it uses -/
+def rstep (R : RngSpec) (w : Gens) : ROp → Gens × Option Nat
+  | .seed s => (⟨R.init .py s, R.init .np s, R.init .native s⟩, none)
+  | .draw g => (w.set g (R.next g (w.get g)), some (R.out g (w.get g)))
+
+/-- the same with an object that owns a PRIVATE generator, created on first use from the Python
+generator and never re-seeded (the shape of a defect: state that outlives `random_seed`) -/
+def rstepPrivate (R : RngSpec) (w : Gens × Option Nat) : ROp → (Gens × Option Nat) × Option Nat
+  | .seed s => ((⟨R.init .py s, R.init .np s, R.init .native s⟩, w.2), none)
+  | .draw g =>
+    match g, w.2 with
+    | .np, none =>
+      let st := R.init .np (R.out .py w.1.py)
+      (({ w.1 with py := R.next .py w.1.py }, some (R.next .np st)), some (R.out .np st))
+    | .np, some st => ((w.1, some (R.next .np st)), some (R.out .np st))
+    | g, p => ((w.1.set g (R.next g (w.1.get g)), p), some (R.out g (w.1.get g)))
+
+/-! ## 10. a memo table in front of the detector model
+
+`Detector.detect` / `BSLayeredPPNR.detect` keep, per detector object, the distribution computed for a photon
+number (`self._cache[theoretical_photons]`); the parameters of a detector never change after construction, so the
+key (the photon number) identifies the question within one object. -/
+
+def findKey {K V : Type} [DecidableEq K] (k : K) : List (K × V) → Option V
+  | [] => none
+  | (k', v) :: t => if k' = k then some v else findKey k t
+
+/-- one question to a memoised function: answer from the table when the key is known, else compute and record -/
+def memoStep {Q K V : Type} [DecidableEq K] (key : Q → K) (f : Q → V) (tbl : List (K × V)) (q : Q) :
+    List (K × V) × V :=
+  match findKey (key q) tbl with
+  | some v => (tbl, v)
+  | none => ((key q, f q) :: tbl, f q)
+
 end PM.C09
